@@ -446,6 +446,34 @@ def check(run, replay=None):
     run.notes["programs_sampled_long"] = len(long_cases)
     run.notes["longest_program_steps"] = max(len(c["prog"]) for c in long_cases)
     cases += long_cases
+    # deep nesting: random nesting words with up to 12 contexts open, of which the programs that call Unit while eight or more
+    # contexts are open are kept (a fixed-size path / stack inside the package shows only there)
+    dc = skel(steps=14, depth=12, land=1, mid=0, minemit=11)
+    r = run_tlc("DuctGen", GEN_CFG % dc, workers=1, timeout=1500, simulate="num=%d" % (60000 if thorough else 15000),
+                args=["-seed", str(run.seed), "-depth", "15"])
+
+    def unit_at_depth(c, k):
+        d = 0
+        for st in c["prog"]:
+            if st["op"] in ("liftf", "wrapf"):
+                d += 1
+            elif st["op"] == "unit":
+                if d >= k:
+                    return True
+                d -= 1
+        return False
+    seen, deep_cases = set(), []
+    for c in r.json_prints("case"):
+        key = json.dumps(c["prog"], sort_keys=True)
+        if key not in seen and unit_at_depth(c, 8):
+            seen.add(key)
+            deep_cases.append(c)
+    deep_cases = deep_cases[:400 if thorough else 80]
+    if not deep_cases:
+        raise Infra("DuctGen -simulate printed no program with a Unit below eight open contexts")
+    run.add_mc("DuctGen-simulate", r, dict(dc, traces=60000 if thorough else 15000, seed=run.seed))
+    run.notes["programs_with_unit_below_8_open_contexts"] = len(deep_cases)
+    cases += deep_cases
     for c in cases:
         if not c["agree"]:
             raise Infra("model error: I and P trees differ for " + show(c))
